@@ -30,6 +30,8 @@ pub struct T { _p: u8 }
 
 // T1: copied verbatim from ranges.rs (derive list rewritten)
 //@@ range_enum
+// assumed: the derived Clone of Range<T> is the structural clone
+impl Clone for Range<T> { #[verifier::external_body] fn clone(&self) -> (c: Range<T>) ensures c == *self { unimplemented!() } }
 
 pub use core::ops::Bound;
 pub type RangesInner<T> = Vec<(Range<T>, ParsedValue)>;
@@ -68,6 +70,8 @@ pub open spec fn first_branch(v: RangesInner<T>, count: T, i: int) -> bool {
 }
 
 //@@ find_value
+
+//@@ populate_inner
 
 } // verus!
 fn main() {}
